@@ -248,33 +248,60 @@ ModelEvalNear(p, s) ==
      /\ last' = [act |-> "ModelEval"]
   /\ UNCHANGED <<phase, shape, prm, names, skeys, rnames, pts, pool, upd, sens, def, est, twin>>
 
+\* the records the Jacobian / sensor evaluation steps carry, as functions of the evaluation point
+JacRec(e) ==
+  LET env == ProcEnv(def, e.dt, e.x, e.u)
+      Gt == ProcJacTree(def)  Vt == CtrlJacTree(def)
+      G == [r \in StateOf |-> [c \in StateOf |-> Val(Gt[r][c], env)]]
+      V == [r \in StateOf |-> [c \in CtrlOf |-> Val(Vt[r][c], env)]] IN
+  [act |-> "JacEval", dt |-> e.dt, x |-> e.x, u |-> e.u, G |-> G, V |-> V,
+   Gt |-> IF AllRational THEN <<>> ELSE Gt,
+   Vt |-> IF AllRational THEN <<>> ELSE Vt]
+JacOK(e, rec) == DefinedAt(e) /\ ~MBad(rec.G) /\ ~MBad(rec.V)
+
 JacEval(p) ==
   /\ CanStep /\ "JacEval" \in Acts /\ p \in RangeOf(pts)
-  /\ LET e == PointEnv(p)
-         env == ProcEnv(def, e.dt, e.x, e.u)
-         Gt == ProcJacTree(def)  Vt == CtrlJacTree(def)
-         G == [r \in StateOf |-> [c \in StateOf |-> Val(Gt[r][c], env)]]
-         V == [r \in StateOf |-> [c \in CtrlOf |-> Val(Vt[r][c], env)]] IN
-     /\ DefinedAt(e) /\ ~MBad(G) /\ ~MBad(V)
+  /\ LET e == PointEnv(p)  rec == JacRec(e) IN
+     /\ JacOK(e, rec)
      /\ ~\E t \in DOMAIN steps : steps[t].act = "JacEval" /\ steps[t].dt = e.dt /\ steps[t].x = e.x
-     /\ steps' = Append(steps, [act |-> "JacEval", dt |-> e.dt, x |-> e.x, u |-> e.u, G |-> G, V |-> V,
-                                Gt |-> IF AllRational THEN <<>> ELSE Gt,
-                                Vt |-> IF AllRational THEN <<>> ELSE Vt])
+     /\ steps' = Append(steps, rec)
      /\ last' = [act |-> "JacEval"]
   /\ UNCHANGED <<phase, shape, prm, names, skeys, rnames, pts, pool, upd, sens, def, est, twin>>
 
+SensRec(key, e) ==
+  LET env == SensEnv(def, e.x)
+      Ht == [r \in Readings(def, key) |-> [c \in StateOf |-> Diff(def.sensors[key][r], c)]]
+      h == [r \in Readings(def, key) |-> Val(def.sensors[key][r], env)]
+      H == [r \in Readings(def, key) |-> [c \in StateOf |-> Val(Ht[r][c], env)]] IN
+  [act |-> "SensEval", key |-> key, x |-> e.x, h |-> h, H |-> H,
+   Q |-> NoiseQ(def, key),
+   Ht |-> IF AllRational THEN <<>> ELSE Ht]
+SensOK(rec) == ~VBad(rec.h) /\ ~MBad(rec.H)
+
 SensEval(key, p) ==
   /\ CanStep /\ "SensEval" \in Acts /\ p \in RangeOf(pts) /\ key \in RangeOf(skeys)
-  /\ LET e == PointEnv(p)
-         env == SensEnv(def, e.x)
-         Ht == [r \in Readings(def, key) |-> [c \in StateOf |-> Diff(def.sensors[key][r], c)]]
-         h == [r \in Readings(def, key) |-> Val(def.sensors[key][r], env)]
-         H == [r \in Readings(def, key) |-> [c \in StateOf |-> Val(Ht[r][c], env)]] IN
-     /\ ~VBad(h) /\ ~MBad(H)
+  /\ LET e == PointEnv(p)  rec == SensRec(key, e) IN
+     /\ SensOK(rec)
      /\ ~\E t \in DOMAIN steps : steps[t].act = "SensEval" /\ steps[t].key = key /\ steps[t].x = e.x
-     /\ steps' = Append(steps, [act |-> "SensEval", key |-> key, x |-> e.x, h |-> h, H |-> H,
-                                Q |-> NoiseQ(def, key),
-                                Ht |-> IF AllRational THEN <<>> ELSE Ht])
+     /\ steps' = Append(steps, rec)
+     /\ last' = [act |-> "SensEval"]
+  /\ UNCHANGED <<phase, shape, prm, names, skeys, rnames, pts, pool, upd, sens, def, est, twin>>
+
+\* the same neighbouring-point pairs for the Jacobians and the sensor models (they are compiled blocks of their own)
+NearPoint(e, s) == [dt |-> e.dt, x |-> [e.x EXCEPT ![s] = Near(e.x[s])], u |-> e.u]
+JacEvalNear(p, s) ==
+  /\ phase = "run" /\ Len(steps) + 1 < MaxSteps /\ "JacEvalNear" \in Acts /\ p \in RangeOf(pts) /\ s \in StateOf
+  /\ LET e == PointEnv(p)  e2 == NearPoint(e, s)  r1 == JacRec(e)  r2 == JacRec(e2) IN
+     /\ JacOK(e, r1) /\ JacOK(e2, r2)
+     /\ steps' = steps \o <<r1, r2>>
+     /\ last' = [act |-> "JacEval"]
+  /\ UNCHANGED <<phase, shape, prm, names, skeys, rnames, pts, pool, upd, sens, def, est, twin>>
+SensEvalNear(key, p, s) ==
+  /\ phase = "run" /\ Len(steps) + 1 < MaxSteps /\ "SensEvalNear" \in Acts /\ p \in RangeOf(pts) /\ s \in StateOf
+  /\ key \in RangeOf(skeys)
+  /\ LET e == PointEnv(p)  e2 == NearPoint(e, s)  r1 == SensRec(key, e)  r2 == SensRec(key, e2) IN
+     /\ SensOK(r1) /\ SensOK(r2)
+     /\ steps' = steps \o <<r1, r2>>
      /\ last' = [act |-> "SensEval"]
   /\ UNCHANGED <<phase, shape, prm, names, skeys, rnames, pts, pool, upd, sens, def, est, twin>>
 
@@ -450,6 +477,8 @@ Next ==
   \/ Compile
   \/ \E p \in RangeOf(pts) : ModelEval(p)
   \/ \E p \in RangeOf(pts) : \E s \in StateOf : ModelEvalNear(p, s)
+  \/ \E p \in RangeOf(pts) : \E s \in StateOf : JacEvalNear(p, s)
+  \/ \E p \in RangeOf(pts) : \E s \in StateOf : \E key \in RangeOf(skeys) : SensEvalNear(key, p, s)
   \/ \E p \in RangeOf(pts) : JacEval(p)
   \/ \E p \in RangeOf(pts) : \E key \in RangeOf(skeys) : SensEval(key, p)
   \/ \E p \in RangeOf(pts) : \E rp \in 0..(Len(PDiag) - 1) : SetEstimate(p, rp)
